@@ -215,9 +215,7 @@ partial def runEmit (cfg : Config) (env : Env) (out : IO.FS.Stream) (m : M) (fue
   | _ =>
     let n0 := m.st.ops.length
     -- hypothesis (b) of C01_step, checked on every step of every trace
-    match m.ctl with
-    | .opCollect :: _ => if m.st.pots_.isSome then out.putStrLn "A frozen-collect" else pure ()
-    | _ => pure ()
+    if m.st.pots_.isSome && m.st.betCollection then out.putStrLn "A frozen-collect"
     let m' := M.step cfg env m
     if m'.st.ops.length > n0 then
       match m'.st.ops.head? with
